@@ -58,6 +58,11 @@ CHECKS = {
    text="signed_shift / unsigned_shift / open / free_variables are compared with renaming and capture-avoiding substitution on named terms (globally fresh binder names) and with the algebraic laws of the property, for every hole-free term up to 5-6 nodes over all formers, every 1-3-definition group with leaf slots, a full grid of cutoffs, amounts, indices and inserted terms, and proptest-generated deeper terms. Exhaustive within the bound, sampled beyond.",
    note="Trusts the named-term model (conversion by context of names; Barendregt convention) and the reading of open's shift argument stated in the evidence file.",
    ref="DESIGN.md section 3, C11"),
+ "C12": dict(
+   technique="property-based testing (proptest): hole punching into well-typed terms, solution invariants checked against NbE conversion",
+   text="Patterns are cut from generated well-typed closed terms by replacing 1-4 subterms at arbitrary depths by holes with shifts that make them solvable, scope-escaping or non-linear, and unified (both orders) with the original, a reduct, an unrelated term or another pattern, with and without a definitions context; occurs-check shapes and two-call histories (a hole solved by a term containing a hole that a later call solves) are generated too. Whenever unify returns true: solved cells are acyclic, every solution's free indices fit the scope of every occurrence of its hole, both sides with the solutions read in are convertible by an independent NbE, and the context keeps its length. Sampled.",
+   note="Nothing is demanded when unify returns false. Two recorded findings are matched by signature (hole copied by open during the call - hook counter; scope escape through a later-solved inner hole - only in the two-call part).",
+   ref="DESIGN.md section 3, C12"),
  "C13": dict(
    technique="property-based testing (proptest) with repeated process launches; oracle = byte equality across runs",
    text="Generated files built to produce several diagnostics at once (a definition that mentions 2-6 later non-value definitions, several unbound / re-bound names, several type errors, several stray symbols, mixtures), accepted programs, syntax near-misses, invalid UTF-8 and the empty file are run 6 (quick) / 20 (thorough) times per sub-command in separate processes; (status, stdout, stderr) must be byte-identical. In-process companion: 10 parse() calls on the same tokens must return identical diagnostics. Cannot prove determinism; the escape probability per file with k permutable diagnostics is (1/k!)^(launches-1).",
@@ -83,6 +88,11 @@ CHECKS = {
    text="22 input families x 5 damage variants with n doubling from 6 to 1536 (quick) / 6144 (thorough), plus proptest-generated random compositions: the number of parsing-function calls (hook in cache_check!) must stay below 250 per token and the per-token rate must not rise on two successive doublings; CPU time growing >12x on two successive doublings and hangs (watchdog, attributed to the announced input) are violations too. Decides linearity of the memoised parser on the explored families; says nothing about families not listed.",
    note="Needs the parser hook (feature verif). The constant was calibrated on the pinned tree (max observed about 60 calls per token).",
    ref="DESIGN.md section 3, C17"),
+ "C18": dict(
+   technique="property-based testing (proptest): open term under generated contexts vs the closed wrapper; context snapshots",
+   text="Generated closed programs starting with 1-5 parameter / definition-group blocks are split into the contexts the checker itself would build (offsets 0 and n - i) and an open body, 40% with a planted type fault. type_check, unify and normalize_weak_head under the contexts must agree with the closed program (same verdict, convertible type after re-binding the blocks, same unify verdict, same literal), and after every call, Ok or Err, both context vectors must have the same length, Rc pointers and offsets as before. Sampled.",
+   note="Contexts are built from the parsed, fully annotated prefix (what the checker pushes for explicit programs); no recursive definitions (conversion on them diverges).",
+   ref="DESIGN.md section 3, C18"),
  "C19": dict(
    technique="property-based testing (proptest) with metamorphic relations between a program and its rewrites",
    text="Metamorphic testing without any reference semantics: accepted generated programs (a quarter annotation-erased) are rewritten 1-4 times (consistent renaming to ASCII / keyword-like / non-ASCII names, redundant parentheses, unused definitions wrapped around a node or inserted into a group, naming a node by a definition, annotated identity applied, `if true then e else e`, swapping independent adjacent function definitions); the rewritten program must be accepted, gram's own conversion must judge the two reported types equal, and the step loop must end the same way (same literal / kind; identical value for parentheses-only rewrites); a sample is compared through `gram check` / `gram run`. Guards against errors shared by the other checks' reference models and the code. Sampled.",
